@@ -16,7 +16,7 @@ from concurrent.futures import ThreadPoolExecutor
 VERIF = os.path.dirname(os.path.dirname(os.path.abspath(__file__)))
 COQ = os.path.join(VERIF, "coq")
 HARNESS = os.path.join(VERIF, "harness")
-REPO = "/repo"
+REPO = os.environ.get("PV_REPO", "/repo")   # override only for experiments on a scratch worktree
 GOENV = dict(os.environ, GOFLAGS="-mod=mod", GOPROXY="off", GOSUMDB="off",
              GOTOOLCHAIN="local", CGO_ENABLED=os.environ.get("CGO_ENABLED", "0"))
 
@@ -113,6 +113,25 @@ def regenerate_tables():
             f.write(out.stdout)
 
 
+COQPROJECT_HEAD = """-Q . PV
+-arg -w -arg -notation-overridden,-deprecated-syntactic-definition,-deprecated
+"""
+
+
+def write_coqproject():
+    """_CoqProject lists every .v file below coq/ (sorted); rewritten only when the set changes."""
+    files = []
+    for root, _, fns in os.walk(COQ):
+        for fn in fns:
+            if fn.endswith(".v"):
+                files.append(os.path.relpath(os.path.join(root, fn), COQ))
+    text = COQPROJECT_HEAD + "\n".join(sorted(files)) + "\n"
+    cp = os.path.join(COQ, "_CoqProject")
+    if not os.path.exists(cp) or open(cp).read() != text:
+        with open(cp, "w") as f:
+            f.write(text)
+
+
 def coq_make(targets, timeout=1800):
     """Full .vo build of the given targets (and what they depend on)."""
     lk = _lock()
@@ -120,6 +139,7 @@ def coq_make(targets, timeout=1800):
         regenerate_tables()
         mk = os.path.join(COQ, "Makefile")
         cp = os.path.join(COQ, "_CoqProject")
+        write_coqproject()
         if not os.path.exists(mk) or os.path.getmtime(mk) < os.path.getmtime(cp):
             subprocess.run(["coq_makefile", "-f", "_CoqProject", "-o", "Makefile"], cwd=COQ,
                            check=True, capture_output=True)
@@ -140,6 +160,12 @@ def build_harness(tmp, race=False):
     out = os.path.join(tmp, "pugrun-race" if race else "pugrun")
     env = dict(GOENV)
     cmd = ["go", "build", "-tags", "verif", "-o", out]
+    if REPO != "/repo":   # experiments on a scratch worktree: same sources, other replace target
+        mf = os.path.join(tmp, "alt.mod")
+        with open(mf, "w") as f:
+            f.write(open(os.path.join(HARNESS, "go.mod")).read().replace("=> /repo", "=> " + REPO))
+        shutil.copy(os.path.join(REPO, "go.sum"), os.path.join(tmp, "alt.sum"))
+        cmd.append("-modfile=" + mf)
     if race:
         cmd.insert(2, "-race")
         env["CGO_ENABLED"] = "1"
